@@ -670,7 +670,9 @@ def main():
         distinct.add(key)
         if mod.nontrivial(c):
             nontriv += 1
-    samples = [{"case": c.name, "cmds": c.cmds[:6]} for c in cases[:2]] + [{"case": c.name, "cmds": c.cmds[:6]} for c in cases[-2:]]
+    def short(cmd):
+        return cmd if len(cmd) <= 600 else cmd[:600] + " ...[%d characters]" % len(cmd)
+    samples = [{"case": c.name, "cmds": [short(x) for x in c.cmds[:6]]} for c in cases[:2] + cases[-2:]]
     coverage = {
         "obligations": len(names),
         "discharged": discharged,
